@@ -14,6 +14,9 @@ def run(tier, seed):
     cfgs = ["js-default", "zero", "js+breaks+xhtml0"]
     lines_universe(rep, "vf.oracles2:c04_safe", tier, "MarkdownIt.render", "output in Safe (tags/attributes from the fixed vocabulary, text and attribute values escaped) and tags nest", cfgs=cfgs, rule="distinct tag sequences")
     inline_universe(rep, "vf.oracles2:c04_safe", tier, "MarkdownIt.render", "same output contract on inline-heavy inputs", cfgs=["js-default"], quick_k=3, thorough_k=4, rule="distinct tag sequences")
+    from ..propbase import gen_universe
+    gen_universe(rep, "vf.oracles2:c04_safe", "vf.universe:gen_emph", tier, "MarkdownIt.parse/render", "same contract on delimiter-heavy inputs (emphasis/strikethrough pairing inside links)",
+                 ["js-default"], "all concatenations of <= k pieces over {*, **, _, ~~, ~, a, space, [, ](x), b}", "delimiter universe")
     rep.explanation = (
         "Mixed. Deductive: html_block returns True only under a truthy options.html (POST needs-html-option); language-inclusion obligations (LANG) "
         "for escapeHtml and the renderer functions when the language back end is present in this run. Bounded: output monitor "
